@@ -409,6 +409,23 @@ def check_global_memos(run, rule, modname):
     return n
 
 
+def _module_level_singleton(project, f):
+    """Is the class of method *f* instantiated once at module level (`NAME = Cls(...)` as a top-level statement of its module)?
+    Such an instance is shared by every caller of the module, like a module-level table."""
+    if f.cls is None:
+        return False
+    try:
+        mod = project.mod(f.module.name)
+    except Exception:
+        return False
+    for n in mod.tree.body:
+        if isinstance(n, (ast.Assign, ast.AnnAssign)) and isinstance(getattr(n, "value", None), ast.Call):
+            d = dotted(n.value.func)
+            if d and d.split(".")[-1] == f.cls.name:
+                return True
+    return False
+
+
 def check_class_stores(run, rule, modname, modfuncs):
     """A function that assigns an attribute of a *class object* at run time -- `cls.x = v`, `setattr(cls, name, v)` in a
     classmethod, `ClassName.x = v`, `type(self).x = v` -- changes the default every other instance sees: what one call
@@ -450,6 +467,51 @@ def check_class_stores(run, rule, modname, modfuncs):
                 run.violated(rule, f, n, "%s executes `%s`: it stores into the class object, not into the instance it is configuring, so the value becomes the default of "
                              "every object of the class created afterwards in this process (a later call that leaves the option out inherits the earlier call's "
                              "selection)" % (f.short, hit), kind="class-object-store", table=hit.split(" ")[0])
+
+
+def check_keyed_attribute_caches(run, rule, modname):
+    """`key = (self.a, self.b); if self._c is not None and self._c[0] == key: return self._c[1]; ...; self._c = (key, value)`:
+    a cache on the object with an explicit key.  Every field of the object that the method reads itself while computing the value
+    must be part of the key -- otherwise changing that field (e.g. `subpyramid()` moving the apex) leaves a stale entry that still
+    matches.  Only the method's own reads are examined (fields read further down, in the methods it calls, are not: no alarm
+    is raised on their account).  Returns the number of caches examined."""
+    project = run.project
+    n = 0
+    for f in project.functions_in(modname):
+        if f.cls is None or f.module.kind != "py":
+            continue
+        stores = [a for a in own_nodes(f.node) if isinstance(a, ast.Assign) and len(a.targets) == 1 and isinstance(a.targets[0], ast.Attribute)
+                  and isinstance(a.targets[0].value, ast.Name) and a.targets[0].value.id == "self" and isinstance(a.value, ast.Tuple) and len(a.value.elts) == 2]
+        for st in stores:
+            cname = st.targets[0].attr
+            # the comparison `self.<c>[0] == key`
+            cmps = [c for c in own_nodes(f.node) if isinstance(c, ast.Compare) and len(c.ops) == 1 and isinstance(c.ops[0], ast.Eq)
+                    and any(isinstance(x, ast.Subscript) and isinstance(x.value, ast.Attribute) and x.value.attr == cname for x in [c.left] + c.comparators)]
+            if not cmps:
+                continue
+            key_expr = st.value.elts[0]
+            if isinstance(key_expr, ast.Name):
+                defs = [a for a in own_nodes(f.node) if isinstance(a, ast.Assign) and len(a.targets) == 1 and isinstance(a.targets[0], ast.Name) and a.targets[0].id == key_expr.id]
+                if len(defs) != 1:
+                    continue
+                key_expr = defs[0].value
+            n += 1
+            run.note_func(f)
+            in_key = {x.attr for x in ast.walk(key_expr) if isinstance(x, ast.Attribute) and isinstance(x.value, ast.Name) and x.value.id == "self"}
+            called = {id(c.func) for c in own_calls(f.node)}
+            reads = {}
+            for x in own_nodes(f.node):
+                if isinstance(x, ast.Attribute) and isinstance(x.value, ast.Name) and x.value.id == "self" and isinstance(x.ctx, ast.Load) and id(x) not in called \
+                        and x.attr != cname:
+                    reads.setdefault(x.attr, x)
+            missing = sorted(a for a in reads if a not in in_key)
+            if missing:
+                run.violated(rule, f, reads[missing[0]], "%s caches its result in self.%s under the key %s, but it also reads self.%s while computing it: after that field "
+                             "changes (a sub-pyramid with another apex, another filter, ...) the stale entry still matches and is handed back" % (
+                                 f.short, cname, ast.unparse(key_expr)[:80], ", self.".join(missing)), kind="attr-cache-key-incomplete", table=cname, missing=missing)
+            else:
+                run.holds(rule, f, st, "%s: every field it reads itself is part of the cache key %s" % (f.short, ast.unparse(key_expr)[:60]), table=cname)
+    return n
 
 
 def check_module(run, rule, modname, funcs=None, only_funcs=None):
@@ -565,6 +627,15 @@ def check_module(run, rule, modname, funcs=None, only_funcs=None):
                                  "worker) or a later step changes that state, this object keeps answering from its stale copy" % (
                                      {"module": "module-level", "class": "class-level", "instance": "instance"}[kind], name, ", ".join(sorted(set(vol)))[:100],
                                      show(key)[:80]), kind="memo-of-volatile", table=name, reads=sorted(set(vol)))
+                    continue
+                projection = bool(missing) and all(any(q.startswith(p_ + ".") or q.startswith(p_ + "#") or q.startswith(p_ + "[") for q in kp) for p_ in missing)
+                if missing and projection and kind == "instance" and not _module_level_singleton(project, f):
+                    # keyed by a field of the very object the value is computed from (`t[tile.pos] = f(tile)`) in a table that belongs to
+                    # one instance: whether that field determines the object *among the objects this instance ever sees* is an invariant
+                    # of the instance (e.g. one locator per coordinate system) that the analysis does not have
+                    run.undecided(rule, f, e.node, "instance table `%s` is keyed by %s, a field of %s, on which the stored value depends as a whole: correct exactly if "
+                                  "that field determines the object among all objects one instance is used with (not decided)" % (
+                                      name, show(key)[:80], sorted(missing)[0]), kind="memo-key-projection", table=name)
                     continue
                 if missing:
                     run.violated(rule, f, e.node, "%s table `%s` is keyed by %s, but the stored value also depends on %s: a later call "
